@@ -42,7 +42,7 @@ FLOOR_TAGS = ["recv:" + r for r in c02.RECVS] + ["k:" + k for k in KINDS] + ["si
 FLOOR_MONITORS = ["c04:compare", "c04:must-refuse", "c04:operands-unchanged"]
 FP_STRICT = True       # a floating-point event inside the library that the dense computation does not have is a violation (shard.FpMonitor)
 N_RANDOM = {"quick": 42000, "thorough": 600000}
-PYSCALARS = [2, 3, -1, 0, 2.5, True, False, 300, -129, 1e10]
+PYSCALARS = [2, 3, -1, 0, 2.5, True, False, 300, -129, 1e10, 2 ** 64, 10 ** 30, -2 ** 63 - 1, 2 ** 63]      # also python ints beyond every 64-bit type (numpy answers comparisons with them)
 
 
 def setup(lib):
@@ -144,12 +144,13 @@ def run(case):
     if must_refuse:
         CTX.tick("c04:must-refuse")
         # an array that came out of zeros_like / ones_like / empty_like is an operand like any other: the mismatch is refused there too
-        for like in (np.zeros_like, np.ones_like, np.empty_like):
+        for like in (np.zeros_like, np.ones_like, np.empty_like, lambda x: np.where(np.ones((len(x), 1), dtype=bool), x, x), lambda x: x.sort(axis=-1), np.negative if dt.kind != "b" else np.logical_not,
+                     lambda x: x[...], lambda x: np.concatenate([x]), lambda x: x.astype(np.float64)):
             la = attempt(like, ra)
             if la.ok:
                 t_ = attempt(fn, la.value, other) if side == "R" else attempt(fn, other, la.value)
                 if t_.ok:
-                    return violated("np.%s(x) was combined with a ragged array of other row lengths (%s vs %s): %s" % (like.__name__, lens, blens, describe()), tags + ["like-operand-accepted"], got=short(t_.value))
+                    return violated("an array derived from x (producer %s) was combined with a ragged array of other row lengths (%s vs %s): %s" % (getattr(like, "__name__", "?"), lens, blens, describe()), tags + ["like-operand-accepted"], got=short(t_.value))
         if a.ok:
             return violated("two ragged arrays with different row lengths %s and %s were combined: %s" % (lens, blens, describe()), tags, got=short(a.value))
         # the refusal leaves both operands as they were, and the first one still combines with a matching partner
